@@ -47,6 +47,7 @@ func SwarmProgCfg(r *Rand) ProgCfg {
 	c.Tree.MaxWidth = r.Range(2, 5)
 	c.Tree.WideP = PickAny(r, []float64{0, 0.05, 0.3})
 	c.Tree.BigP = PickAny(r, []float64{0, 0, 0.05, 0.2})
+	c.Tree.OddKeyP = PickAny(r, []float64{0, 0, 0.05, 0.15})
 	if r.Chance(0.3) {
 		c.Tree.Strs = append(append([]string{}, PlainStrs...), DollarStrs...)
 	}
